@@ -73,6 +73,8 @@ pub struct World {
     /// Leaked boxes so futures can borrow them for 'static; freed explicitly.
     pub fds: Vec<Option<*mut AsyncFd>>,
     pub mark: u64,
+    /// The ring was built with single_issuer() (bound to this thread).
+    pub cfg_single_issuer: bool,
 }
 
 /// Begin a case: reset simulator, shims, tracker epoch.
@@ -115,7 +117,7 @@ impl World {
             ring.sq()
         };
         let ring_fd = sim::sim().rings.iter().find(|r| !r.closed).map(|r| r.fd).ok_or("no simulated ring after build")?;
-        Ok(World { ring: Some(ring), sq: Some(sq), ring_fd, fds: Vec::new(), mark })
+        Ok(World { ring: Some(ring), sq: Some(sq), ring_fd, fds: Vec::new(), mark, cfg_single_issuer: cfg.defer_taskrun && !cfg.sqpoll })
     }
 
     pub fn sq(&self) -> SubmissionQueue {
